@@ -1,5 +1,6 @@
 // @mode parse line
 // @mode toks line run_toks
+// @mode parse2mb line run_2mb
 //! mode `parse`: `parse <Kind:value:sl:sc:el:ec>…` → real `parse_gold` on exactly these tokens.
 //! mode `toks`: `toks <escaped text>` → token list of the real lexer in the same wire form.
 use crate::analyzers_v2::doc_symbol_generator::DocumentSymbolGeneratorFromAst;
@@ -38,4 +39,20 @@ pub fn run_toks(words: &[&str]) -> String {
     let mut out = vec!["parse".to_string()];
     out.extend(tokens.iter().map(tok_str));
     out.join(" ")
+}
+
+/// same as `parse`, but on a thread with a 2 MB stack (the stack the property names)
+pub fn run_2mb(words: &[&str]) -> String {
+    let owned: Vec<String> = words.iter().map(|w| w.to_string()).collect();
+    let h = std::thread::Builder::new()
+        .stack_size(2 * 1024 * 1024)
+        .spawn(move || {
+            let refs: Vec<&str> = owned.iter().map(|s| s.as_str()).collect();
+            run(&refs)
+        })
+        .unwrap();
+    match h.join() {
+        Ok(s) => s,
+        Err(_) => "panic".to_string(),
+    }
 }
